@@ -513,8 +513,12 @@ fn signature(kind: &str, e: &FnEntry, types: &[DataType], rep: &Rep, cols: &[Vec
     let is_null = |j: usize, r: usize| cols.get(j).and_then(|c| c.get(r)).map(|v| v.is_null()).unwrap_or(false);
     let nested = |t: &DataType| matches!(t, DataType::List(_) | DataType::LargeList(_) | DataType::FixedSizeList(_, _) | DataType::Struct(_) | DataType::Map(_, _));
     if kind == "return-type" {
-        // the declared type follows the argument encoding: key by the encoding
-        return format!("return-type/{label}/{}", rep.label.split('+').next().unwrap_or(""));
+        // the declared type follows the argument encoding: key by the encoding (if any)
+        let first = rep.label.split('+').next().unwrap_or("");
+        return format!("return-type/{label}/{}", if first.starts_with("enc") || first.starts_with("dict") { first } else { "any-representation" });
+    }
+    if label == "spark:map_from_arrays" && rep.label.contains("sliced") {
+        return "spark:map_from_arrays/slice-offset-ignored".to_string();
     }
     if kind == "representation-dependence" {
         if (name == "array_has_all" || name == "array_has_any") && !rows.is_empty() && rows.iter().all(|r| is_null(0, *r) || is_null(1, *r)) {
@@ -533,9 +537,6 @@ fn signature(kind: &str, e: &FnEntry, types: &[DataType], rep: &Rep, cols: &[Vec
         }
         if name == "map" && e.registry != "spark" && (rep.label.contains("split") || rep.label == "canonical") {
             return "map/values-misaligned-across-rows".to_string();
-        }
-        if label == "spark:map_from_arrays" && rep.label.contains("sliced") {
-            return "spark:map_from_arrays/slice-offset-ignored".to_string();
         }
     }
     if kind == "batch-fails-rows-succeed" && rep.label.contains("validity") && (0..types.len()).any(|j| nested(&types[j]) && (0..n).any(|r| is_null(j, r))) {
